@@ -130,6 +130,16 @@ class Interp:
                         it.loop.current_world, it.loop.current_world_handle)
                     it.terminal = True
                     raise d.Quit()
+                if it.in_run and it.cfg.get('load_boom', {}).get(
+                        str(self.h)) == it.gen[self.h]:
+                    # ... or fails with an ordinary exception, which is the
+                    # caller's to see (terminal for the model as well)
+                    it.faults['crash_while_loading'] += 1
+                    it.probes['crash_while_next_world_loads'] += 1
+                    it.ended_by = 'crash'
+                    it.terminal = True
+                    it.crash_obj = Crash('load')
+                    raise it.crash_obj
                 w = super().load()
                 it.cached[self.h] = it.gen[self.h]
                 return w
@@ -1022,6 +1032,8 @@ def gen_config(prop, rng):
                               if rng.random() < .1 else None),
             'load_quit': ({str(rng.randrange(nw)): rng.choice([1, 2, 2, 3])}
                           if prop == 'C14' and rng.random() < .08 else {}),
+            'load_boom': ({str(rng.randrange(nw)): rng.choice([1, 2, 2, 3])}
+                          if prop == 'C14' and rng.random() < .06 else {}),
             'clock': {'start': start, 'incs': incs}}
 
 
